@@ -327,6 +327,36 @@ def work_history(chunk, st):
     st.sample({'history': list(chunk[0])}, cap=12)
 
 
+# ---- names listed more than once (legal, and seen in the wild): the rules speak of algorithms, not of occurrences
+REPEAT_SETS = {
+    'cbc+etm': dict(enc=['aes256-ctr', 'aes128-cbc'], mac=['hmac-sha2-256-etm@openssh.com', 'hmac-sha2-256'], rep=('enc', 'aes128-cbc')),
+    'etm': dict(enc=['aes256-ctr', 'aes128-cbc'], mac=['hmac-sha2-256-etm@openssh.com', 'hmac-sha2-256'], rep=('mac', 'hmac-sha2-256-etm@openssh.com')),
+    'chacha': dict(enc=['chacha20-poly1305@openssh.com', 'aes256-ctr'], mac=['hmac-sha2-256'], rep=('enc', 'chacha20-poly1305@openssh.com')),
+    'warn-kex': dict(kex=['curve25519-sha256', 'diffie-hellman-group14-sha256'], rep=('kex', 'diffie-hellman-group14-sha256')),
+    'fail-mac': dict(mac=['hmac-sha2-256', 'hmac-md5'], rep=('mac', 'hmac-md5')),
+    'rsa-2048': dict(key=['rsa-sha2-512', 'ssh-ed25519'], rep=('key', 'rsa-sha2-512')),
+}
+
+
+def work_repeats(chunk, st):
+    for name, k, where in chunk:
+        spec = REPEAT_SETS[name]
+        cat, alg = spec['rep']
+        lists = {'kex': ['curve25519-sha256'], 'key': ['ssh-ed25519'], 'enc': ['aes256-ctr'], 'mac': ['hmac-sha2-256']}
+        for c in lists:
+            if c in spec:
+                lists[c] = list(spec[c])
+        base = [x for x in lists[cat] if x != alg]
+        lists[cat] = {'front': [alg] * k + base, 'back': base + [alg] * k, 'around': [alg] * (k // 2) + base + [alg] * (k - k // 2)}[where]
+        banner = b'SSH-2.0-OpenSSH_9.6'
+
+        def mk(lists=lists):
+            srv = P.Server(banner=banner, host_keys=P.standard_host_keys(lists['key'], rsa_bits=2048), kex=lists['kex'], key=lists['key'], enc=lists['enc'], mac=lists['mac'])
+            return srv, {c: list(v) for c, v in lists.items()}
+        check_server('OpenSSH', '9.6', banner, 'repeat:%s:x%d:%s' % (name, k, where), mk, st)
+    st.sample({'repeated_name': list(chunk[0])}, cap=4)
+
+
 def run(tier, seed):
     t0 = time.time()
     bs = banners(tier)
@@ -338,6 +368,7 @@ def run(tier, seed):
     par.pmap(work_history, hist, stats=st, chunk=2)
     from props import zoo
     par.pmap(work_zoo, [n for n in zoo.names(tier) if not n.startswith('c13:')], stats=st, chunk=4)
+    par.pmap(work_repeats, [(n, k, w) for n in sorted(REPEAT_SETS) for k in (2, 3, 8, 9, 10, 11, 30) for w in ('front', 'back', 'around')], stats=st, chunk=4)
     par.pmap(work_client, [(b, k) for b in bs[::4] for k in ('all', 'even', 'odd', 'clean', 'terrapin-hardened', 'unknowns')], stats=st, chunk=4)
     vcases = []
     for (prod, version, banner), kind in H.pick(tasks, seed, 12 if tier == 'quick' else 60):
@@ -347,7 +378,7 @@ def run(tier, seed):
         PID, tier, seed, st, t0,
         rule='%d banners (OpenSSH/Dropbear/libssh at every first-appeared version in the DB, its nearest neighbours and multi-digit versions; TinySSH; '
              'unrecognised software) x %d peers (all DB names; even/odd-indexed names so every entry occurs advertised and not advertised; clean; '
-             'OpenSSH 2048-bit GEX (one and both algorithms); Terrapin-hardened; unknown names) x {json, text}; the same rules over the peers of props/zoo.py' % (len(bs), len(PEER_KINDS)),
+             'OpenSSH 2048-bit GEX (one and both algorithms); Terrapin-hardened; unknown names) x {json, text}; the same rules over the peers of props/zoo.py; peers listing one algorithm 2..30 times (six note profiles x three placements)' % (len(bs), len(PEER_KINDS)),
         assumptions=['ratings are read from the same report (JSON notes); availability uses numeric version order',
                      'entries without any version information are not required either way'],
         exhaustive=True, traces_validated=validated, extra={'banners': len(bs)})
